@@ -24,6 +24,17 @@ class Context:
         self.ba = BindingAnalysis(self.p, self.cg)
         self.r = Reporter(pid, tier, root, seed=seed, quiet=quiet)
 
+    def scope(self, entry_table):
+        """Functions attributed to a property: its entry points and what
+        they reach through precise (non name-based) call edges."""
+        from .rules.common import entries
+        key = tuple(entry_table)
+        cache = self.__dict__.setdefault("_scope_cache", {})
+        if key not in cache:
+            ents = entries(self, entry_table)
+            cache[key] = set(self.cg.reachable(ents, precise=True))
+        return cache[key]
+
     def do(self, rule_fn, *args, **kwargs):
         """Run one rule; an AnalysisError inside it is recorded as a gap so
         that the other rules of the property still report."""
